@@ -410,13 +410,19 @@ def rule_R13c_chunks_take_enum(text):
     while True:
         m = rsscan.mask(text)
         hit = None
-        for mt in re.finditer(r'\bfor\s+\(\s*(\w+)\s*,\s*(\w+)\s*\)\s+in\s+', m):
+        for mt in re.finditer(r'\bfor\s+(?:\(\s*(\w+)\s*,\s*(\w+)\s*\)|(\w+))\s+in\s+', m):
             if not rsscan.is_stmt_start(m, mt.start(), 0):
                 continue
             bo = rsscan.find_body_open(m, mt.end())
             if bo < 0:
                 continue
             hdr = ''.join(text[mt.end():bo].split())
+            if mt.group(3):
+                z = re.fullmatch(r'(.+?)\.chunks_exact\((.+?)\)\.take\((.+?)\)', hdr)
+                if z:
+                    hit = (mt.start(), bo, z.group(1), z.group(2), z.group(3), None, mt.group(3))
+                    break
+                continue
             z = re.fullmatch(r'(.+?)\.chunks_exact\((.+?)\)\.take\((.+?)\)\.enumerate\(\)', hdr)
             if z:
                 hit = (mt.start(), bo, z.group(1), z.group(2), z.group(3), mt.group(1), mt.group(2))
@@ -427,7 +433,7 @@ def rule_R13c_chunks_take_enum(text):
         bc = rsscan.match_close(m, bo)
         k = 'verif_e%d' % n
         head = 'verif_assert(%s != 0); let verif_t%d = verif_min(%s, %s.len() / %s); let mut %s: usize = 0; while %s < verif_t%d ' % (cn, n, tk, x, cn, k, k, n)
-        first = '{ let %s = %s; let %s = &%s[%s * %s..(%s + 1) * %s]; ' % (iv, k, dv, x, k, cn, k, cn)
+        first = '{ ' + (('let %s = %s; ' % (iv, k)) if iv else '') + 'let %s = &%s[%s * %s..(%s + 1) * %s]; ' % (dv, x, k, cn, k, cn)
         body = text[bo + 1:bc]
         new = head + '\n' * text[a:bo].count('\n') + first + body + ' %s += 1; }' % k
         text = text[:a] + new + text[bc + 1:]
@@ -442,7 +448,7 @@ def rule_R17_untransmute(text):
     n = 0
     while True:
         m = rsscan.mask(text)
-        mt = re.search(r'\blet\s+(\w+)\s*(?::[^=;]*)?=\s*(?:crate::)?array_utils::workaround_transmute(?:_mut)?\(\s*(\w+)\s*\)\s*;', m)
+        mt = re.search(r'\blet\s+(?:mut\s+)?(\w+)\s*(?::[^=;]*)?=\s*(?:(?:crate::)?array_utils::)?workaround_transmute(?:_mut)?\(\s*&?\s*(?:mut\s+)?(\w+)\s*\)\s*;', m)
         if not mt:
             break
         name, src = mt.group(1), mt.group(2)
